@@ -70,12 +70,20 @@ def files_of_case(case):
     return out
 
 
+class Prog(int):
+    """A progress mode that also says how often the public assemble() is called again before
+    write() (object reuse: the result must be the same as after the constructor's own call)."""
+    again = 0
+
+
 def variant(rng, root, single):
     """(spelling of the content path, progress mode): the creators must not care."""
     spelled = root
     if not single and rng.random() < 0.3:
         spelled = rng.choice([root + "/", root + "//", root + "/.", root.replace("/payload", "//payload")])
-    return spelled, rng.choice([0, 0, 1, 2])
+    prog = Prog(rng.choice([0, 0, 1, 2]))
+    prog.again = rng.choice([0, 0, 0, 0, 1, 2])
+    return spelled, prog
 
 
 def leaves_of(tree, pre=()):
